@@ -252,6 +252,31 @@ def bool_expr(x):
     return z3.BoolVal(bool(x))
 
 
+INDEX_FORKS = 64
+
+
+def _min_feasible(eng, x, floor):
+    """Smallest value >= floor that x can take on the current path (None if there is none)."""
+    lo, hi = max(floor, x.lo), x.hi
+    if lo > hi:
+        return None
+    r, _ = eng.check(x.e >= z3.BitVecVal(lo, W), x.e <= z3.BitVecVal(hi, W))
+    if r == "unknown":
+        raise EngineLimit("solver unknown while concretising an index")
+    if r != "sat":
+        return None
+    while lo < hi:
+        mid = (lo + hi) // 2
+        r, _ = eng.check(x.e >= z3.BitVecVal(lo, W), x.e <= z3.BitVecVal(mid, W))
+        if r == "unknown":
+            raise EngineLimit("solver unknown while concretising an index")
+        if r == "sat":
+            hi = mid
+        else:
+            lo = mid + 1
+    return lo
+
+
 class SymInt:
     __slots__ = ("e", "lo", "hi")
     # isinstance(x, int) is answered through __class__ (CrossHair's trick) so run-time type checkers
@@ -291,11 +316,15 @@ class SymInt:
 
     # shifts (by concrete amounts, as in the code under test)
     def __rshift__(self, k):
+        if type(k) is SymInt:
+            k = k.__index__()
         if type(k) is not int or k < 0:
             raise EngineLimit("shift by symbolic/negative amount")
         return SymInt._mk(self.e >> k, self.lo >> k, self.hi >> k)
 
     def __lshift__(self, k):
+        if type(k) is SymInt:
+            k = k.__index__()
         if type(k) is not int or k < 0:
             raise EngineLimit("shift by symbolic/negative amount")
         return SymInt._mk(self.e << k, self.lo << k, self.hi << k)
@@ -304,7 +333,14 @@ class SymInt:
         # concrete << symbolic: only 1 << n (n small, bounded)
         if type(base) is int and base >= 0 and self.lo >= 0 and self.hi < W - 2 - base.bit_length():
             return SymInt._mk(z3.BitVecVal(base, W) << self.e, base << self.lo, base << self.hi)
+        if type(base) is int:
+            return base << self.__index__()
         raise EngineLimit("concrete << symbolic outside model")
+
+    def __rrshift__(self, base):
+        if type(base) is int:
+            return base >> self.__index__()
+        raise EngineLimit("concrete >> symbolic outside model")
 
     def __rpow__(self, base):
         if base == 2 and self.lo >= 0 and self.hi < W - 3:
@@ -473,7 +509,23 @@ class SymInt:
         return SymByteArray(out if byteorder == "little" else out[::-1])
 
     def __index__(self):
-        raise EngineLimit("symbolic int used at a C boundary (__index__)")
+        """A C boundary needs a machine int (slice bound, repeat count, shift amount): the path splits per feasible
+        value, smallest first (found by bisection with the solver, so re-execution meets the same sequence); more than
+        INDEX_FORKS values is an EngineLimit, never a guess."""
+        eng = Engine.cur
+        if eng is None or not getattr(eng, "_live", False):
+            raise EngineLimit("symbolic int used at a C boundary (__index__)")
+        floor = self.lo
+        for _ in range(INDEX_FORKS):
+            v = _min_feasible(eng, self, floor)
+            if v is None:
+                raise PathAbort()
+            if eng.branch(self.e == z3.BitVecVal(v, W)):
+                return v
+            floor = v + 1
+            if floor > self.hi:
+                raise PathAbort()
+        raise EngineLimit(f"symbolic int with more than {INDEX_FORKS} feasible values used at a C boundary (__index__)")
 
     def __int__(self):
         raise EngineLimit("symbolic int used at a C boundary (__int__)")
